@@ -13,6 +13,12 @@ const ADAPTERS: &[&str] = &[
     "last", "count", "max", "min", "flat_map", "zip", "fold",
 ];
 
+thread_local! {
+    /// derives to drop for the item being emitted (`//@drop-derive Clone`): the trait impl is then
+    /// supplied, with a specification, by the environment (A-clone)
+    pub static DROP_DERIVES: std::cell::RefCell<Vec<String>> = std::cell::RefCell::new(Vec::new());
+}
+
 pub struct ClosureInfo {
     pub span: (usize, usize),
     pub body: (usize, usize),
@@ -99,7 +105,8 @@ pub fn attr_edits(attrs: &[syn::Attribute], src: &str, edits: &mut Vec<Edit>, re
             let mut dropped = Vec::new();
             let _ = a.parse_nested_meta(|m| {
                 let n = m.path.segments.last().map(|x| x.ident.to_string()).unwrap_or_default();
-                if KEEP_DERIVES.contains(&n.as_str()) {
+                let extra_drop = DROP_DERIVES.with(|d| d.borrow().contains(&n));
+                if KEEP_DERIVES.contains(&n.as_str()) && !extra_drop {
                     kept.push(n);
                 } else {
                     dropped.push(n);
